@@ -76,6 +76,17 @@ CHECKS = {
         note='Bounds are those declared by get_param(); item sizes are recomputed from the items without the '
              'vector\'s own bookkeeping.',
         design='3 (C12)'),
+    'C13': dict(
+        technique='history-based property testing: generated observer-call sequences with a structural state dump as '
+                  'invariant (Hypothesis), buffer-mutation-after-parse and mutate-one-of-two-parses aliasing checks over '
+                  'all accepted seeds, and generated construct/mutate-in-place histories for classes with defaults',
+        text='Observer purity for ~166 classes x 60 (thorough 1500) call sequences plus every parsed corpus object and an '
+             'enumerated family of client hellos at the cipher-suite ceiling (the only place where compose can fail '
+             'half way); aliasing for every accepted seed of every concrete class through the three entry points; '
+             'default sharing for every attrs class with defaults. Sampling of histories.',
+        note='State is the structural dump of vf.core.lib.dump (private fields and the recorded vector size included); '
+             'in-place mutation goes through the public container interfaces only.',
+        design='3 (C13)'),
     'C08': dict(
         technique='differential testing against an independent RFC reference codec (vf/ref/dns.py): Hypothesis-generated '
                   'plain-data models + a seeded boundary grid; compose == reference RDATA, parse(reference) recovers '
